@@ -44,6 +44,11 @@ package server
 // Established state in the same step (RFC 4271 8.2.2: the session goes to Idle) - the wait loop is not re-entered,
 // where the read failure on the connection we closed ourselves would be taken for a loss of the peer
 //@ props C07
+// from C07 "yields the NOTIFICATION code/subcode ... the RFCs prescribe": a Cease turned into a Hard Reset (RFC 8538 3.1)
+// carries the NOTIFICATION it stands for - its code, its subcode, then its data
+//@ func (*fsmHandler).established$2
+//@   claims at-call
+//@   at-call bgp.NewBGPNotificationMessage( requires len(arg2) == len(m.Body.(*bgp.BGPNotification).Data) + 2 && arg2[0] == m.Body.(*bgp.BGPNotification).ErrorCode && arg2[1] == m.Body.(*bgp.BGPNotification).ErrorSubcode
 //@ func (*fsmHandler).established
 //@   claims step
 //@   loop 0 step called(changeadminState) ==> !called(sendNotification)
